@@ -187,6 +187,18 @@ func runC02(c *Ctx) {
 					okCopy = true
 				}
 			}
+			// or: make(len 2, cap 2+n); PutUint16(bs, sp); bs = append(bs, msg...) handed to WriteBytes
+			if !okCopy {
+				_, wa := callArgs(wb[0].Common())
+				if ap, ok := wa[0].(*ssa.Call); ok && calleeName(ap.Common()) == "builtin:append" {
+					_, aa := callArgs(ap.Common())
+					if ms, isMs := aa[0].(*ssa.MakeSlice); isMs && len(aa) == 2 && render(aa[1]) == "$1" {
+						if k, isK := constInt(ms.Len); isK && k == 2 {
+							okCopy = true
+						}
+					}
+				}
+			}
 			c.check(okCopy, "C02.wal-writer", "WriteMessageBytes record = tag + message bytes", f.Pos(), "copy(bs[2:], msg)", "message bytes are not copied behind the 2-byte tag")
 		}
 	}
